@@ -910,8 +910,7 @@ func c06WhoCloses(c *Ctx) {
 	allowClose := map[string]string{
 		"(*db.DB).Destroy":        "closes when no reader is left",
 		"(*db.DataReader).Close":  "last reader of a replaced generation",
-		"(*db.DB).Reload":         "timeout arm closes a late fresh backend",
-		"(*db.DB).Reload$1":       "reload goroutine closes a late fresh backend",
+		"(*db.DB).Reload":         "timeout arm / reload goroutine close a late fresh backend",
 	}
 	allowDestroy := map[string]string{
 		"(*db.DB).Reload":                  "replaces the old generation",
@@ -928,8 +927,16 @@ func c06WhoCloses(c *Ctx) {
 			cc := ci.Common()
 			if isDBIMethodInvoke(c, cc, "Close") {
 				nClose++
-				_, ok := allowClose[fnName(fn)]
-				c.Check(rule, "DBI.Close|caller:"+fnName(fn), ok, ci.Pos(), "only the reference-counting life cycle may close a backend")
+				root := fn
+				for root.Parent() != nil {
+					root = root.Parent()
+				}
+				_, ok := allowClose[fnName(root)]
+				who := fnName(root)
+				if root != fn {
+					who += "$closure"
+				}
+				c.Check(rule, "DBI.Close|caller:"+who, ok, ci.Pos(), "only the reference-counting life cycle may close a backend")
 			}
 			if calleeOf(cc) == destroyF {
 				nDestroy++
